@@ -19,7 +19,7 @@ func init() {
 			cfg.Cross = "cvc5"
 		}
 		c.Assumptions = append(c.Assumptions,
-			"the file system is a symbolic table answering EvalSymlinks/Stat/Getwd per path (eight scenario families: new/existing absolute path without symlinks, symlink leaf, new database under a symlinked parent, '..' after a symlinked directory, relative spellings, resolution error); symlink targets and working directories are arbitrary clean absolute paths chosen by the solver; the true location is computed by the harness from the scenario, independently of the code",
+			"the file system is a symbolic table answering EvalSymlinks/Stat/Getwd per path (ten scenario families: new/existing absolute path without symlinks, symlink leaf, new database under a symlinked parent, '..' after a symlinked directory in absolute and in relative spelling, relative spellings, a missing first component followed by '..', resolution error); symlink targets and working directories are arbitrary clean absolute paths chosen by the solver; the true location is computed by the harness from the scenario, independently of the code",
 			"path bytes range over [a-z0-9._/-], paths up to maxlen bytes (coverage.harnesses[].params), new leaf names up to 3 bytes; filepath.Clean/Join/Abs are executed from their own SSA unless the solver proves the argument already clean",
 			"refusal is observed as an error whose text contains 'security violation'; pebble.Open is a stub (reaching it means 'not refused')",
 			"native replays force ReadOnly so that no database is ever created; a violation that exists only in read-write mode would be reported as unreproduced (inconclusive)")
